@@ -2240,7 +2240,9 @@ impl<'store> AnnotationStore {
                         self.remove(resource)?;
                     }
                     for annotation in remove_annotations {
-                        self.remove(annotation)?;
+                        //an annotation in the result may depend on another one (or on a resource) in the same result
+                        //and be gone already through that one's cascade
+                        self.remove_annotation_if_present(annotation)?;
                     }
                     for dataset in remove_datasets {
                         self.remove(dataset)?;
